@@ -115,6 +115,7 @@ func (c *reconnectClient) Connect(ctx context.Context, clientID string, opts ...
 								c.options.PingInterval,
 								c.options.Timeout,
 							); err != nil {
+								verifEvent("kaErr")
 								c.Client().SetErrorOnce(err)
 								// The client should close the connection if PINGRESP is not returned.
 								// MQTT 3.1.1 spec. 3.1.2.10
@@ -149,6 +150,7 @@ func (c *reconnectClient) Connect(ctx context.Context, clientID string, opts ...
 			} else if err != ctx.Err() {
 				errDial.Store(err) // Hold first dial error excepting context cancel.
 			}
+			verifEvent("reconnWait", int64(reconnWait))
 			select {
 			case <-time.After(reconnWait):
 			case <-ctx.Done():
